@@ -827,3 +827,38 @@ def midrecord_input(rng):
     if rng.random() < 0.15:
         t, _ = mutate(rng, b(t), 1)
     return b(t), f"{where}/{ctx}"
+
+
+# ------------------------------------------------------------------------------------------------ definitions that refer to other definitions by name
+
+def isotope_input(rng):
+    """ISOTOPES / ISOTOPE_RATIOS / ISOTOPE_ALPHAS / CALCULATE_VALUES / NAMED_EXPRESSIONS blocks whose references are undefined, misspelt, of the wrong
+    kind, defined too late or carried over from an earlier simulation — each such block ALONE in its simulation (no other model-defining keyword)
+    followed by a speciation.  (text, database)"""
+    good_cv = "CALCULATE_VALUES\n Alpha_one\n -start\n 10 SAVE 1.001\n -end\n"
+    good_ne = "NAMED_EXPRESSIONS\n Log_alpha_one\n  log_k 0.001\n"
+    name = rng.choice(["Alpha_undefined", "Alpha_onee", "alpha_one", "Log_alpha_one", "R(13C)_x", "Calcite", "Na+", "13C", "[13C]", "x" * 300, "1", "-", ""])
+    sol = lambda n: f"SOLUTION {n}\n pH 7\n Na 1\n Cl 1\n" + rng.choice(["", " C 2\n", " [13C] 1\n", " D 1\n"]) + "END\n"
+    bad = rng.choice([
+        f"ISOTOPE_ALPHAS\n {name}\n", f"ISOTOPE_ALPHAS\n Alpha_one {name}\n", f"ISOTOPE_ALPHAS\n {name} {name}\n", f"ISOTOPE_ALPHAS\n {name} Log_alpha_one extra\n",
+        f"ISOTOPE_RATIOS\n {name} 13C\n", f"ISOTOPE_RATIOS\n R(13C)_x {name}\n", f"ISOTOPE_RATIOS\n {name}\n",
+        f"ISOTOPES\n {name}\n -isotope {name} permil 0.011\n", f"ISOTOPES\n C\n -isotope {name} {name} {name}\n", f"ISOTOPES\n {name}\n", f"ISOTOPES\n -isotope 13C permil\n",
+        f"NAMED_EXPRESSIONS\n {name}\n  log_k {value(rng)}\n  -add_logk {name} 1\n", f"NAMED_EXPRESSIONS\n Log_x\n  -add_logk {name} {value(rng)}\n",
+        f"CALCULATE_VALUES\n {name}\n -start\n 10 x = 1\n -end\n", f"CALCULATE_VALUES\n cvx\n -start\n 10 SAVE CALC_VALUE(\"{name}\")\n -end\nISOTOPE_ALPHAS\n cvx\n",
+        f"CALCULATE_VALUES\n cvy\n -start\n 10 SAVE LK_NAMED(\"{name}\")\n -end\nISOTOPE_RATIOS\n cvy 13C\n",
+        f"SELECTED_OUTPUT 1\n -isotopes {name}\n -calculate_values {name}\n"])
+    shape = rng.choice(["alone-then-solution", "with-solution", "carried-over", "late", "print-off", "alone-then-reaction"])
+    if shape == "alone-then-solution":
+        t = bad + "END\n" + sol(1)
+    elif shape == "with-solution":
+        t = bad + sol(1)
+    elif shape == "carried-over":
+        t = good_cv + good_ne + "ISOTOPE_ALPHAS\n Alpha_one Log_alpha_one\n" + sol(1) + bad + sol(2)
+    elif shape == "late":
+        t = sol(1) + bad + "USE solution 1\nREACTION_TEMPERATURE 1\n 30\nEND\n"
+    elif shape == "print-off":
+        t = "PRINT\n -isotope_alphas false\n -isotope_ratios false\n" + bad + sol(1)
+    else:
+        t = sol(1) + bad + "END\nUSE solution 1\nREACTION 1\n NaCl 1\n 0.01\nEND\n"
+    db = rng.choice([PHREEQC_DAT, PHREEQC_DAT, str(DBDIR / "iso.dat")])
+    return b(t), db, shape
